@@ -108,6 +108,10 @@ def run_cases(ctx, n, tag):
         it = rng.choice(["SEMANTIC", "UNMATCHED", "MATCHED"])
         metrics = rng.sample(["IOU", "DSC", "RVD", "ASSD"], rng.randint(1, 4))
         hnd = rand_handler(rng, metrics)
+        if i % 4 == 1:
+            # a handler that defines exactly the evaluated metrics (not all five), with its own empty-list value
+            hnd = {"table": [e for e in hnd["table"] if e[0] in metrics], "empty_list_std": hnd["empty_list_std"]}
+            ctx.count("handler_defines_only_the_evaluated_metrics")
         scen = rng.choice(["NO_INSTANCES", "EMPTY_PRED", "EMPTY_REF", "NORMAL", "NORMAL"])
         arrs = scenario_arrays(rng, scen, it)
         if arrs is None:
